@@ -90,8 +90,15 @@ func relOf(a, b time.Time) string { // a compared with b
 	return "same"
 }
 
+// how far apart two modification times are when one is "newer": from the finest resolution a filesystem reports to hours;
+// rotated from one built forest to the next ("newer" is a strict comparison of two instants, whatever lies between them)
+var c11Units = []time.Duration{time.Hour, time.Nanosecond, 100 * time.Millisecond, time.Second, time.Microsecond, 3 * time.Millisecond, 36 * time.Hour}
+var c11Builds int
+
 func c11Build(n int, parent []int, want []c11Want, order []int, now time.Time) (*synthdb.DB, []c11Facts) {
-	base := time.Date(2001, 1, 1, 0, 0, 0, 0, time.UTC)
+	base := time.Date(2001, 1, 1, 0, 0, 0, 400_000_000, time.UTC)
+	unit := c11Units[c11Builds%len(c11Units)]
+	c11Builds++
 	ents := make([]*synthdb.Entity, n+1)
 	alias := func(e int) string { return fmt.Sprintf("e%d", e) }
 	// entities are numbered so that parent[e] < e
@@ -121,21 +128,21 @@ func c11Build(n int, parent []int, want []c11Want, order []int, now time.Time) (
 			if p := parent[e-1]; p != 0 && !ents[p].Meta.LastBuild.IsZero() {
 				switch c11Rels[w.Iss] {
 				case "older":
-					lb = ents[p].Meta.LastBuild.Add(time.Hour)
+					lb = ents[p].Meta.LastBuild.Add(2 * unit)
 				case "same":
 					lb = ents[p].Meta.LastBuild
 				case "newer":
-					lb = ents[p].Meta.LastBuild.Add(-time.Hour)
+					lb = ents[p].Meta.LastBuild.Add(-2 * unit)
 				}
 			}
 			ent.Meta.LastBuild = lb
 			switch c11Rels[w.Cfg] {
 			case "older":
-				ent.Meta.LastConfigUpdate = lb.Add(-time.Minute)
+				ent.Meta.LastConfigUpdate = lb.Add(-unit)
 			case "same":
 				ent.Meta.LastConfigUpdate = lb
 			case "newer":
-				ent.Meta.LastConfigUpdate = lb.Add(time.Minute)
+				ent.Meta.LastConfigUpdate = lb.Add(unit)
 			}
 		} else {
 			ent.Meta.LastConfigUpdate = base
